@@ -164,6 +164,18 @@ func (e fixEvaluator) AddScaled(op0, op1, opOut *rlwe.Ciphertext) {
 	e.r.Add(op0.Value[0], op1.Value[0], opOut.Value[0])
 }
 
+// OUTREAD control: the second component of the output is a source before anything wrote it
+func (e fixEvaluator) Fold(op0 *rlwe.Ciphertext, opOut *rlwe.Ciphertext) {
+	e.r.Add(op0.Value[0], op0.Value[1], opOut.Value[0])
+	e.r.Add(op0.Value[1], opOut.Value[1], opOut.Value[1])
+}
+
+// CLONE control: the second statement takes its first operand from the output, its sibling from the input
+func (e fixEvaluator) Twice(op0, op1, opOut *rlwe.Ciphertext) {
+	e.r.Add(op0.Value[0], op1.Value[0], opOut.Value[0])
+	e.r.Add(opOut.Value[1], op1.Value[1], opOut.Value[1])
+}
+
 // LANE control: lane 2 reads x[3]
 func laneBad(x, y, z *[8]uint64, q uint64) {
 	z[0] = x[0] + y[0] + q
